@@ -4,9 +4,9 @@ import (
 	"bufio"
 	"io"
 	"net"
-	"sync"
-	"sync/atomic"
-	"time"
+	
+	
+
 
 	"github.com/basecomplextech/baselibrary/async"
 	"github.com/basecomplextech/baselibrary/async/asyncmap"
@@ -208,38 +208,22 @@ func (c *zzNetConn) Close() error {
 // ---- handler, worker pool, delegate, logger ---------------------------------------------------------------
 
 // zzHandler is the server's channel handler. A handler start is a separate complete operation of
-// the harness: inside the engine the worker pool records the runner and zzWorkers.runNext runs it
-// inline; natively the real worker pool starts a goroutine at once, which parks at the gate until
-// runNext opens it, so that both worlds execute the same sequential order.
+// the harness: the worker pool (async.ZZGatedPool, added to baselibrary's async package through the
+// build overlay) records the runner and zzWorkers.runNext runs it inline, in the engine and natively
+// alike, so both worlds execute the same sequential order and no goroutine is involved.
 type zzHandler struct {
 	calls int
 	chans []Channel
 	ctxs  []Context
 	ret   status.Status
 	panic bool
-	gate  chan struct{}
-	done  chan struct{}
-	arrived atomic.Int32
-	mu      sync.Mutex
-	parked  []Channel // natively: channels whose handler goroutine waits at its gate
-	gates   []chan struct{}
 }
 
 func zzNewHandler() *zzHandler {
-	return &zzHandler{ret: status.OK, gate: make(chan struct{}), done: make(chan struct{}, 16)}
+	return &zzHandler{ret: status.OK}
 }
 
 func (h *zzHandler) HandleChannel(ctx Context, ch Channel) status.Status {
-	if !zzverif.Symbolic() {
-		h.mu.Lock()
-		h.parked = append(h.parked, ch)
-		g := make(chan struct{})
-		h.gates = append(h.gates, g)
-		h.mu.Unlock()
-		h.arrived.Add(1)
-		<-g
-		defer func() { h.done <- struct{}{} }()
-	}
 	h.calls++
 	h.chans = append(h.chans, ch)
 	h.ctxs = append(h.ctxs, ctx)
@@ -251,58 +235,54 @@ func (h *zzHandler) HandleChannel(ctx Context, ch Channel) status.Status {
 
 // zzWorkers replaces the package-level worker pool.
 type zzWorkers struct {
-	async.Pool // natively: the real pool
-	pending    []async.Runner
-	started    int
-	handler    *zzHandler
+	async.ZZGatedPool
+	handler *zzHandler
 }
 
-// ZZ_WorkersRun overrides (*zzWorkers).Run inside the engine (the parameter type of the real method,
-// an internal baselibrary interface, cannot be named here).
-func ZZ_WorkersRun(w *zzWorkers, r async.Runner) {
-	w.pending = append(w.pending, r)
-	w.started++
-}
-
-// runNext starts the next pending handler and lets it run to completion (including its deferred
-// channel release).
+// runNext starts the next pending handler (of channel ch, or any when ch is nil) and lets it run to
+// completion, including its deferred channel release.
 func (w *zzWorkers) runNext(ch *channel) bool {
-	if zzverif.Symbolic() {
-		for i, r := range w.pending {
-			if h, ok := r.(*channelHandler); ok && (ch == nil || h.ch == ch) {
-				w.pending = append(append([]async.Runner{}, w.pending[:i]...), w.pending[i+1:]...)
-				r.Run()
-				return true
-			}
-		}
-		return false
-	}
-	// natively: open the gate of the handler goroutine parked for this channel
-	var g chan struct{}
-	for try := 0; try < 500 && g == nil; try++ {
-		w.handler.mu.Lock()
-		for i, c := range w.handler.parked {
-			if w.handler.gates[i] != nil && (ch == nil || c == Channel(ch)) {
-				g = w.handler.gates[i]
-				w.handler.gates[i] = nil
-				break
-			}
-		}
-		w.handler.mu.Unlock()
-		if g == nil {
-			time.Sleep(time.Millisecond)
+	for i, r := range w.Pending {
+		if h, ok := r.(*channelHandler); ok && (ch == nil || h.ch == ch) {
+			w.Pending = append(append([]async.Runner{}, w.Pending[:i]...), w.Pending[i+1:]...)
+			r.Run()
+			return true
 		}
 	}
-	if g == nil {
-		return false
+	return false
+}
+
+// zzPool is a LIFO object pool (pools.Pool contract: Get/New/Put) with a one-shot preemption point
+// right after Put: one other complete operation may run between the moment an object becomes
+// available to others and whatever the releasing code still does with it.
+type zzPool[T any] struct {
+	items []T
+	newFn func() T
+	hook  func()
+}
+
+func (p *zzPool[T]) Get() (v T, ok bool) {
+	if n := len(p.items); n > 0 {
+		v = p.items[n-1]
+		p.items = p.items[:n-1]
+		return v, true
 	}
-	close(g)
-	<-w.handler.done
-	for i := 0; i < 2000 && ch != nil && !ch.freed.Load(); i++ {
-		time.Sleep(100 * time.Microsecond)
+	return v, false
+}
+
+func (p *zzPool[T]) New() T {
+	if v, ok := p.Get(); ok {
+		return v
 	}
-	time.Sleep(2 * time.Millisecond)
-	return true
+	return p.newFn()
+}
+
+func (p *zzPool[T]) Put(v T) {
+	p.items = append(p.items, v)
+	if h := p.hook; h != nil {
+		p.hook = nil
+		h()
+	}
 }
 
 type zzDelegate struct {
@@ -354,10 +334,7 @@ func zzNewConn(client bool, inbound []byte, eof bool) *zzConnEnv {
 		shaken:   zzNewFlag(false),
 	}
 	e.workers.handler = e.handler
-	if !zzverif.Symbolic() {
-		e.workers.Pool = async.NewPool()
-	}
-	workerPool = e.workers
+	workerPool = &e.workers.ZZGatedPool
 	src := bufio.NewReaderSize(e.nc, 64)
 	dst := bufio.NewWriterSize(e.nc, 64)
 	c := &conn{
@@ -380,38 +357,14 @@ func zzNewConn(client bool, inbound []byte, eof bool) *zzConnEnv {
 }
 
 // handlersRequested is the number of handler starts the connection asked the worker pool for.
-// (Counted on the handler side natively: every requested handler is parked at the gate.)
-func (e *zzConnEnv) handlersRequested() int {
-	if zzverif.Symbolic() {
-		return e.workers.started
-	}
-	time.Sleep(3 * time.Millisecond)
-	return int(e.handler.arrived.Load())
-}
+func (e *zzConnEnv) handlersRequested() int { return e.workers.Started }
 
 // pendingChannel returns the channel of the first handler the connection asked to start.
 func (w *zzWorkers) pendingChannel() *channel {
-	if !zzverif.Symbolic() {
-		for i := 0; i < 200; i++ {
-			w.handler.mu.Lock()
-			n := len(w.handler.parked)
-			var c Channel
-			if n > 0 {
-				c = w.handler.parked[0]
-			}
-			w.handler.mu.Unlock()
-			if n > 0 {
-				return c.(*channel)
-			}
-			time.Sleep(time.Millisecond)
+	for _, r := range w.Pending {
+		if h, ok := r.(*channelHandler); ok {
+			return h.ch
 		}
-		return nil
-	}
-	if len(w.pending) == 0 {
-		return nil
-	}
-	if h, ok := w.pending[0].(*channelHandler); ok {
-		return h.ch
 	}
 	return nil
 }
